@@ -15,6 +15,13 @@ CLAIMED = {
              "exhaustive-first-two-bytes differential suite; P_spec evaluated on the real code for every generated case.",
         design_ref='DESIGN.md §3 C17',
         technique='Lean 4 proof over hand-written model + extracted-table tie (decide +kernel) + differential correspondence'),
+    'C20': dict(
+        text="The code's complete lookup graphs (65 536 data ids, 65 536 routine ids, 256 values of each of the 12 subfunction tables, "
+             "256 response codes, 256 DTC formats) are regenerated from /repo on every run and proved equal to the Spec graphs by the kernel "
+             "(decide +kernel, no sampling); Spec theorems: totality over all 16-bit ids (lifting lemma over a contiguous partition), row "
+             "soundness, exact-constant / range-only-inside / custom-fallback characterisation for every table and value, alias-aware response-code names.",
+        design_ref='DESIGN.md §3 C20',
+        technique='Lean 4 proof; model regenerated from source (complete finite graphs) + decide +kernel tie; exhaustive differential check vs Spec'),
 }
 
 PENDING_REASON = 'check not built yet in this round (build order in DESIGN.md §7); not claimed until its theorem and tie exist'
